@@ -150,6 +150,61 @@ def _has_op(e, kind):
     return B._uf("OperatorSet.has", OpSet.z3sort(), OKE.z3sort(), z3.BoolSort())(ops, OKE.consts[kind])
 
 
+def replay_duration_clause(obligation):
+    """several directed shapes per clause (a bound reading one fluent / a static and a non-static one together); reproduced if any shape fails"""
+    last = None
+    for variant in (0, 1):
+        r = _replay_duration_clause(obligation, variant)
+        if r is None:
+            return last
+        last = r
+        if r["reproduced"]:
+            return r
+    return last
+
+
+def _replay_duration_clause(obligation, variant):
+    from fractions import Fraction
+    from unified_planning.shortcuts import Plus
+    from unified_planning.shortcuts import Problem, Fluent, IntType, DurativeAction, InstantaneousAction, Int, Real, StartTiming
+    from unified_planning.model.timing import DurationInterval
+    clause, feats = obligation.split(" -> ", 1)
+    clause = clause.rsplit(":", 1)[-1].strip()
+    alts = [a.strip() for a in feats.split(" or ")]
+    which = "lower" if clause.startswith("lower") else "upper" if clause.startswith("upper") else None
+    pr = Problem("replay_duration")
+    ds, dd = Fluent("d_static", IntType(1, 9)), Fluent("d_dynamic", IntType(1, 9))
+    pr.add_fluent(ds, default_initial_value=2)
+    pr.add_fluent(dd, default_initial_value=2)
+    bump = InstantaneousAction("bump")
+    bump.add_effect(dd, 3)
+    pr.add_action(bump)
+    if clause == "different bounds":
+        lo, hi = Int(2), Int(5)
+    elif which is None:
+        return None
+    else:
+        if "integer type" in clause:
+            mine, other = (Int(2), Real(Fraction(7, 2))) if which == "lower" else (Int(5), Real(Fraction(1, 2)))
+        elif "real type" in clause:
+            mine, other = (Real(Fraction(1, 2)), Int(5)) if which == "lower" else (Real(Fraction(7, 2)), Int(2))
+        elif "static fluent" in clause:
+            mine, other = (ds() if variant == 0 else Plus(ds(), dd())), Int(50)
+        elif "not static" in clause or "reads a fluent" in clause:
+            mine, other = (dd() if variant == 0 else Plus(dd(), ds())), Int(50)
+        else:
+            return None          # interpreted functions: no native family here
+        lo, hi = (mine, other) if which == "lower" else (other, mine)
+    act = DurativeAction("work")
+    em = pr.environment.expression_manager
+    act.set_duration_constraint(DurationInterval(em.auto_promote(lo)[0], em.auto_promote(hi)[0]))
+    pr.add_action(act)
+    feats_now = set(pr.kind.features)
+    missing = not any(a in feats_now for a in alts)
+    return {"reproduced": bool(missing), "concrete": {"duration": f"[{lo}, {hi}]", "clause": clause, "expected_one_of": alts},
+            "observed": sorted(f for f in feats_now if "DURATION" in f)}
+
+
 class KindUnit(Unit):
     prop = "C10"
     allowed_raises = ()
@@ -176,6 +231,15 @@ class KindUnit(Unit):
         fac = _factory(eng, st)
         arg = self.mk_arg(eng, st)
         return [fac, arg], {}, dict(arg=arg, fac=fac)
+
+    replay_without_model = True      # the native replay is chosen by the clause the obligation names, not by the solver's model
+
+    def replay(self, ctx, model, obligation):
+        """update_action_duration only: the clause named by the obligation is tried natively on a real durative action whose duration
+        interval has the named shape (the solver's candidate model is not needed to choose it)"""
+        if self.meth != "update_action_duration" or " -> " not in obligation:
+            return None
+        return replay_duration_clause(obligation)
 
     def post(self, eng, ctx, st, out):
         if out[0] != "return":
@@ -255,7 +319,57 @@ def _t_fluent(eng, st, f, ctx):
     yield "numeric fluent with a bound", z3.And(excl, z3.Or(i, r), z3.Or(z3.Not(lbn), z3.Not(ubn))), ["BOUNDED_TYPES"]
 
 
+Duration10 = Ref("Duration10", fields={"lower": FNode10, "upper": FNode10})
+
+
+def _opset_or(e, st, selfv, a, k):
+    """union of two operator sets: membership is the disjunction"""
+    has = B._uf("OperatorSet.has", OpSet.z3sort(), OKE.z3sort(), z3.BoolSort())
+    r = OpSet.fresh("ops_union")
+    kk = z3.Const(fresh_name("ok"), OKE.z3sort())
+    st.assume(z3.ForAll([kk], has(r.z, kk) == z3.Or(has(selfv.z, kk), has(a[0].z, kk))))
+    yield st, r
+
+
+OpSet.methods["__or__"] = _opset_or
+
+
+def _reads_fluent(e):
+    has = B._uf("FNode10.free_fluents.has", FNode10.z3sort(), z3.ArraySort(FNode10.z3sort(), z3.BoolSort()))(e)
+    x = z3.Const(fresh_name("x"), FNode10.z3sort())
+    return z3.Exists([x], z3.Select(has, x))
+
+
+def _mk_duration(eng, st):
+    """a well-formed duration interval: both bounds are numeric expressions (DurationInterval's constructor checks it)"""
+    d = Duration10.fresh("duration")
+    for nm in ("lower", "upper"):
+        b = B._uf(f"Duration10.{nm}", Duration10.z3sort(), FNode10.z3sort())(d.z)
+        t = B._uf("FNode10.type", FNode10.z3sort(), Type10.z3sort())(b)
+        st.assume(z3.Or(_tp(t, "is_int_type"), _tp(t, "is_real_type")))
+    return d
+
+
+def _t_duration(eng, st, d, ctx):
+    lo = B._uf("Duration10.lower", Duration10.z3sort(), FNode10.z3sort())(d.z)
+    up_ = B._uf("Duration10.upper", Duration10.z3sort(), FNode10.z3sort())(d.z)
+    for nm, b in (("lower", lo), ("upper", up_)):
+        t = B._uf("FNode10.type", FNode10.z3sort(), Type10.z3sort())(b)
+        yield f"{nm} bound of integer type", _tp(t, "is_int_type"), ["INT_TYPE_DURATIONS"]
+        yield f"{nm} bound of real type", z3.And(z3.Not(_tp(t, "is_int_type")), _tp(t, "is_real_type")), ["REAL_TYPE_DURATIONS"]
+        yield f"{nm} bound calls an interpreted function", _has_op(SRef(FNode10, b), OK.INTERPRETED_FUNCTION_EXP), ["INTERPRETED_FUNCTIONS_IN_DURATIONS"]
+        yield f"{nm} bound reads a fluent", _reads_fluent(b), ["FLUENTS_IN_DURATIONS", "STATIC_FLUENTS_IN_DURATIONS"]
+        static = st.load(st.getfield(ctx["fac"], "static_fluents"))
+        has = B._uf("FNode10.free_fluents.has", FNode10.z3sort(), z3.ArraySort(FNode10.z3sort(), z3.BoolSort()))(b)
+        fl = B._uf("FNode10.fluent()", FNode10.z3sort(), Fluent10.z3sort())
+        x = z3.Const(fresh_name("x"), FNode10.z3sort())
+        yield f"{nm} bound reads a static fluent", z3.Exists([x], z3.And(z3.Select(has, x), z3.Select(static.has, fl(x)))), ["STATIC_FLUENTS_IN_DURATIONS"]
+        yield f"{nm} bound reads a fluent that is not static", z3.Exists([x], z3.And(z3.Select(has, x), z3.Not(z3.Select(static.has, fl(x))))), ["FLUENTS_IN_DURATIONS"]
+    yield "different bounds", lo != up_, ["DURATION_INEQUALITIES"]
+
+
 P_UNITS = [
+    KindUnit("update_action_duration", lambda eng, st: _mk_duration(eng, st), _t_duration, "duration interval -> time / expression-duration features (both bounds)"),
     KindUnit("update_problem_kind_expression", lambda eng, st: FNode10.fresh("exp"), _t_expr, "operator of a condition -> conditions-kind feature"),
     KindUnit("update_problem_kind_type", lambda eng, st: Type10.fresh("type"), _t_type, "user type -> typing features"),
     KindUnit("update_action_parameter", lambda eng, st: Param10.fresh("param"), _t_param, "action parameter type -> parameters feature"),
